@@ -246,3 +246,14 @@ def r8_widening_prologues(ctx):
 
 
 RULES += [r3_recursion, r4_interval_widening, r5_left_not_closed, r6_product_widening, r7_thresholds, r8_widening_prologues]
+
+
+def r9_componentwise_widening(ctx):
+    ctx.rule("C05.r9", "product and lifting domains widen / narrow every component with the SAME operator (a component combined with "
+             "narrowing or meet inside a widening keeps facts of one argument only, so the iterate no longer covers the new state and "
+             "the loop is declared stable too early)", floor=20)
+    from . import _componentwise as cw
+    cw.componentwise_rule(ctx, "C05.r9", only={"operator||", "widening_thresholds", "operator&&"})
+
+
+RULES += [r9_componentwise_widening]
